@@ -966,7 +966,9 @@ func (r *yieldRewriter) rewriteBreakContinues(body *ast.BlockStmt) {
 		switch n := n.(type) {
 		case *ast.ForStmt, *ast.RangeStmt:
 			enterLoop(true)
-		case *ast.SwitchStmt, *ast.TypeSwitchStmt:
+		case *ast.SwitchStmt, *ast.TypeSwitchStmt, *ast.SelectStmt:
+			// (select: only legal in plain closures of a generator, where an
+			// unlabelled break inside it leaves the select)
 			enterSwitch(true)
 		case *ast.FuncLit:
 			enterLoop(false)
@@ -979,7 +981,7 @@ func (r *yieldRewriter) rewriteBreakContinues(body *ast.BlockStmt) {
 		switch n := n.(type) {
 		case *ast.ForStmt, *ast.RangeStmt:
 			exitLoop()
-		case *ast.SwitchStmt, *ast.TypeSwitchStmt:
+		case *ast.SwitchStmt, *ast.TypeSwitchStmt, *ast.SelectStmt:
 			exitSwitch()
 		case *ast.FuncLit:
 			exitLoop()
